@@ -312,6 +312,14 @@ def proof_stage(rep, pid, gen=(), extra_targets=()):
                     "(full .vo build; Print Assumptions after every theorem)" % (pid, pid),
         trusted_base=list(TRUSTED_BASE),
     )
+    if rep.tier == "thorough" and deps_ok and ok2:
+        # independent re-check of the compiled files and everything they depend on
+        rc, out, err = run(["coqchk", "-o", "-silent", "-Q", ".", "Dagrt", "Dagrt.props.%s" % pid], cwd=COQ,
+                           timeout=3000)
+        summ = out[out.find("CONTEXT SUMMARY"):] if "CONTEXT SUMMARY" in out else (out + err)[-1500:]
+        rep.coverage["coqchk"] = {"exit": rc, "summary": " ".join(summ.split())[:1500]}
+        if rc != 0:
+            return dict(ok=False, stage="coqchk", detail=summ[-1500:], theorem="props/%s.v (coqchk)" % pid)
     if not (deps_ok and ok2):
         return dict(ok=False, stage="proof", detail=first_coq_error(log if not deps_ok else plog),
                     theorem="props/%s.v" % pid)
